@@ -529,6 +529,65 @@ theorem updated_globals_in_force_everywhere (ord : MapOrder) (hv : ord.Valid) (c
       simp only [decide_eq_true_eq] at hek
       exact ⟨e, hem, hek, hx⟩
 
+/-! ### declared type versus the type the setting is read with -/
+
+/-- **declared_type_matches_reader**: `GlobalSettings.update` accepts a value when it parses as the type *declared* in
+`config.GlobalSettingInfo`; `ConfigImpl.Update` / `DbSettings.Update` read it back with their own typed accessor, which falls
+back to the node-local yaml when the stored string does not parse. Decided over the two generated tables: every accessor
+reads a declared setting with exactly the declared type (a row that is declared wider than it is read would let a value be
+accepted that no node can read). -/
+theorem declared_type_matches_reader :
+    Generated.C48.globalReaders.all (fun r =>
+      match findEntry Generated.C48.globals r.2.1 with
+      | some e => e.ct == r.2.2.1
+      | none => false) = true := by
+  decide +kernel
+
+theorem globals_keys_nodup : (Generated.C48.globals.map (·.key)).Nodup := by decide +kernel
+
+theorem findEntry_of_mem_nodup : ∀ (tbl : List Entry) (e : Entry), e ∈ tbl → (tbl.map (·.key)).Nodup → findEntry tbl e.key = some e
+  | [], _, h, _ => by simp at h
+  | x :: r, e, h, hn => by
+    unfold findEntry
+    rw [List.find?_cons]
+    by_cases hx : x.key = e.key
+    · simp only [hx, decide_true]
+      rcases List.mem_cons.mp h with h | h
+      · rw [h]
+      · exfalso
+        have hn' : x.key ∉ r.map (·.key) := by
+          have := hn; simp only [List.map_cons] at this; exact (List.nodup_cons.mp this).1
+        exact hn' (by rw [hx]; exact List.mem_map.mpr ⟨e, h, rfl⟩)
+    · simp only [hx, decide_false]
+      rcases List.mem_cons.mp h with h | h
+      · exact absurd (by rw [h]) hx
+      · have hn2 : (r.map (·.key)).Nodup := by
+          have := hn; simp only [List.map_cons] at this; exact (List.nodup_cons.mp this).2
+        exact findEntry_of_mem_nodup r e h hn2
+
+/-- **accepted values are read back**: given `declared_type_matches_reader`, a value accepted by `update_globals` is what the
+code's own accessor for that setting returns on every node — no silent fallback to the local configuration. -/
+theorem accepted_global_read_back (ord : MapOrder) (hv : ord.Valid) (caller : Str) (m : SMap Str) (mc : Cfg)
+    (g g' : Globals) (out : Bool) (h : updateGlobals P ord caller (some m) mc g = (.ok out, g'))
+    (k v : Str) (hm : (k, v) ∈ m) (hu : ∀ v', (k, v') ∈ m → v' = v) (rct : CT) (hr : globalReaderCT k = some rct) (loc : Str) :
+    globalInForce P g' k rct loc = v := by
+  obtain ⟨hf, e, hem, hek, hp⟩ := updated_globals_in_force_everywhere P ord hv caller m mc g g' out h k v hm hu
+  have hfe : findEntry Generated.C48.globals k = some e := by
+    rw [← hek]; exact findEntry_of_mem_nodup _ e hem globals_keys_nodup
+  -- the reader row for k
+  unfold globalReaderCT at hr
+  cases hfr : Generated.C48.globalReaders.find? (fun r => r.2.1 = k) with
+  | none => simp [hfr] at hr
+  | some r =>
+    simp only [hfr, Option.map_some, Option.some.injEq] at hr
+    have hrm := List.mem_of_find?_eq_some hfr
+    have hrk : r.2.1 = k := by simpa using List.find?_some hfr
+    have hall := List.all_eq_true.mp declared_type_matches_reader r hrm
+    rw [hrk, hfe] at hall
+    have hct : e.ct = rct := by rw [← hr]; simpa using hall
+    unfold globalInForce
+    simp only [hf, ← hct, hp]
+
 /-! ## ties to the generated file: what the hand-written part of the model relies on -/
 
 /-- the call order of every entry point, `validate` calls taken out (the model takes those from the generated list):
